@@ -161,12 +161,12 @@ def programs(tier):
                     rc = rl[ci % len(rl)]
                     srcs.append(_src("R", RCOLS, 3, rc, known))
                 progs.append(Program(text, srcs, ordered=ordered, family="F02", note=f"{tag}/{'known' if known else 'unknown'}", env_globals={"dx": dx},
-                                     known=KNOWN_CUM if tag == "cumulative-known" else None))
+                                     known=None))
         # from_pandas layouts as well (sorted concrete index)
         for nparts in (1, 2, 3):
             srcs = [Src("L", n, LCOLS, nparts)] + ([Src("R", 3, RCOLS, max(1, nparts - 1))] if arity == 2 else [])
             if tag in ("loc",):
                 continue
             progs.append(Program(text, srcs, ordered=ordered, family="F02", note=f"{tag}/from_pandas", env_globals={"dx": dx},
-                                 known=KNOWN_CUM if tag == "cumulative-known" else None))
+                                 known=None))
     return progs
